@@ -179,7 +179,7 @@ def configs(rng, quick, terminals):
         elif tolmode == "moderate":
             opts.update(tol_residual=1e-1 if method == "newton" else 1e-6, tol_increment=1e-1, tol_distance=1e-1)
         if ls in ("amg", "cg"):
-            opts["linear_solver_options"] = {"tol": 1e-12, "maxiter": 400}
+            opts["linear_solver_options"] = {"atol": 1e-13, "rtol": 1e-13, "maxiter": 600}
         if rng.random() < 0.3:
             opts["aa_depth"] = 3
         fault = rng.choice([None] + [f for f in faults if f is not None and f >= 0 and f < num_iter])
